@@ -213,3 +213,11 @@ RULES = [
     ("C17.b", "EventSlot: open guard, overwrite, take; open/close flags", rule_b),
     ("C17.c", "sink senders write once, synchronously", rule_c),
 ]
+
+
+def rule_inventory(ctx):
+    from . import inventory
+    inventory.check(ctx, ['file:event_buffer', 'file:event_slot'])
+
+
+RULES.append(("C17.e", "state-mutation inventory: no new site that changes the content of the state this property rests on", rule_inventory))
